@@ -8,6 +8,8 @@ package vos
 import (
 	"io/fs"
 	"os"
+	"path/filepath"
+	"syscall"
 
 	"github.com/Flowpack/prunner/zverif/vsched"
 )
@@ -199,9 +201,16 @@ func CreateTemp(dir, pattern string) (*File, error) {
 	return f, err
 }
 
+// DataDirIsMountPoint: every directory is treated as a file system of its own - a rename between two directories
+// fails with EXDEV, as it does when the data directory is a mounted volume and the other one is not
+var DataDirIsMountPoint bool
+
 func Rename(oldpath, newpath string) error {
 	if err := point("rename", newpath); err != nil {
 		return err
+	}
+	if DataDirIsMountPoint && filepath.Dir(filepath.Clean(oldpath)) != filepath.Dir(filepath.Clean(newpath)) {
+		return &os.LinkError{Op: "rename", Old: oldpath, New: newpath, Err: syscall.EXDEV}
 	}
 	err := os.Rename(oldpath, newpath)
 	after("rename", newpath)
